@@ -213,6 +213,19 @@ func mutantMain(args []string) int {
 		for k := range r.notVerified {
 			failed = append(failed, k+"#verifiable")
 		}
+		// bounded stand-ins run on the mutated source too (labelled as such)
+		if len(failed) == 0 {
+			for _, bp := range cfg.Bounded {
+				src, err := os.ReadFile(filepath.Join(verifRoot, "bounded", id, bp.File))
+				if err != nil {
+					continue
+				}
+				out, failedRun, rerr := runOverlayTestWith(filepath.Join(repoRoot, bp.PkgDir), "TestGovcBounded", string(src), "govc_bounded_test.go", ov)
+				if rerr == nil && failedRun {
+					failed = append(failed, bp.Func+"#bounded(BOUNDED search found: "+firstLineOf(strings.TrimSpace(tail(out, 300)))+")")
+				}
+			}
+		}
 		sort.Strings(failed)
 		if len(failed) == 0 {
 			fmt.Printf("  %-8s %-40s SURVIVED  (%s) [functions %s]\n", id, m.Name, m.Why, mcfg.Funcs)
